@@ -26,7 +26,7 @@ MANIFEST = dict(
 BOUNDS = {'quick': dict(T=5, Tp=3, Tt=2), 'thorough': dict(T=6, Tp=4, Tt=3)}
 BOUNDS['replay'] = BOUNDS['quick']
 CHARS = ['a', 'b', 'c']
-STYLES = ['peaky', 'margin1', 'runnerup', 'tie_up', 'huge']
+STYLES = ['peaky', 'margin1', 'runnerup', 'tie_up', 'huge', 'uneven']
 H = 8
 _ENG = {}
 
@@ -49,6 +49,15 @@ def scores_for(paths, C, style):
     elif style == 'margin1':
         S = np.full((N, C, T), 100, dtype=np.int64)
         hi = 101
+    elif style == 'uneven':
+        # the winning score differs from frame to frame (30 / 42 / 54, margin 2): a symbol that wins one frame scores 10-24 higher in others
+        S = np.zeros((N, C, T), dtype=np.int64)
+        for n, p in enumerate(paths):
+            for t, c in enumerate(p):
+                hi = 30 + 12 * ((t + n) % 3)
+                S[n, :, t] = hi - 2
+                S[n, c, t] = hi
+        return S
     elif style == 'huge':
         # un-normalised scores of large magnitude, beyond any constant a decoder might use as "certainly the largest"
         S = np.full((N, C, T), -3000, dtype=np.int64)
@@ -71,16 +80,17 @@ def setup(tier):
     from mc import stubs
     for C in (2, 3, 4):
         stubs.ctc_engine_json(C, CHARS[:C - 1], line_px_height=H, pool=1)
+        stubs.ctc_engine_json(C, CHARS[:C - 1], line_px_height=H, pool=4)
 
 
 CHARS_ZW = ['a', '​', 'c']        # a charset that holds the zero-width space as a regular symbol in the middle
 
 
-def engine(C, zw=False):
-    key = (C, zw)
+def engine(C, zw=False, pool=1):
+    key = (C, zw, pool)
     if key not in _ENG:
         from mc import stubs
-        _ENG[key] = stubs.make_ctc_engine(C, (CHARS_ZW if zw else CHARS)[:C - 1], line_px_height=H, pool=1)
+        _ENG[key] = stubs.make_ctc_engine(C, (CHARS_ZW if zw else CHARS)[:C - 1], line_px_height=H, pool=pool)
     return _ENG[key]
 
 
@@ -267,6 +277,29 @@ def check_case(case, ctx):
                                       f'path {p} (style {style}): the engine decodes {want[i]!r}; its logits (x 0.1 + 0.05) stored on a TextLine and '
                                       f'decoded by GreedyDecoder from get_full_logprobs() give {g3!r}', dict(case, lines=[p]))
                         break
+            # the same hand-over through process_lines (sparse storage of the logits, frame window): what the page decoder does with a line
+            if style in ('uneven', 'margin1'):
+                from scipy import sparse as _sp
+                from pero_ocr.core.layout import TextLine
+                eng4 = engine(C, pool=4)            # process_lines assumes the usual 4 pixel columns per frame
+                wide = np.repeat(img, 4, axis=2)
+                tr, lgs, cos = eng4.process_lines([wide[i] for i in range(len(paths))])
+                ctx.executed()
+                for i, p in enumerate(paths):
+                    tl = TextLine(id='l', logits=lgs[i], characters=chars + ['​'], logit_coords=cos[i])
+                    full = tl.get_full_logprobs()
+                    g4 = GreedyDecoder(chars + [BLANK_SYMBOL])(full[cos[i][0]:cos[i][1]]).best_hyp()
+                    g5 = GreedyDecoder(chars + [BLANK_SYMBOL])(full).best_hyp()
+                    ctx.executed(2)
+                    # (the padded margins of the crop are part of the network output too: the engine's text is compared with the stand-alone
+                    # decoder on ALL frames, the collapse of the enumerated path with the stand-alone decoder on the line's own frame window)
+                    if g5 != tr[i] or g4 != want[i]:
+                        ctx.violation('engine-and-standalone-agree', f'{K}/process_lines-sparse-logits/GreedyDecoder',
+                                      f'path {p} (style {style}): process_lines transcribes {tr[i]!r}, GreedyDecoder on all frames of the sparse logits it '
+                                      f'returns gives {g5!r}; on the frame window {list(cos[i])} it gives {g4!r}, collapse of the path gives {want[i]!r}',
+                                      dict(case, lines=[p]))
+                        break
+                ctx.tag('process_lines-sparse-hand-over')
             # a charset with the zero-width space in the middle is mapped like any other symbol
             if C == 4 and style == 'peaky':
                 dec2, _ = engine(C, zw=True).run_ocr(img)
@@ -279,6 +312,22 @@ def check_case(case, ctx):
     # (3,4) stand-alone decoders, line by line
     letters = chars + [BLANK_SYMBOL]
     gd = GreedyDecoder(letters)
+    if C == 4 and style == 'peaky' and len(paths) <= 3:
+        # a character table with symbols that Unicode normalisation would change (ANGSTROM SIGN, OHM SIGN, a decomposed letter): the
+        # transcription consists of exactly the table entries
+        odd = ['\u212b', '\u2126', 'e\u0301']
+        gdo = GreedyDecoder(odd + [BLANK_SYMBOL])
+        for i, p in enumerate(paths):
+            x = S[i].T.astype(np.float64)
+            go = gdo(x - np.logaddexp.reduce(x, axis=1)[:, None]).best_hyp()
+            wo = ''.join(odd[c] for c in collapse(p, blank))
+            ctx.executed()
+            if go != wo:
+                ctx.violation('greedy-equals-collapse', f'{K}/GreedyDecoder/character-table-not-normalisation-stable',
+                              f'GreedyDecoder with the table {[o.encode("unicode_escape").decode() for o in odd]} on path {p}: '
+                              f'{go.encode("unicode_escape").decode()!r}, the table gives {wo.encode("unicode_escape").decode()!r}', dict(case, lines=[p]))
+                break
+        ctx.tag('non-nfc-character-table')
     for i, p in enumerate(paths):
         x = S[i].T.astype(np.float64)
         lp = x - np.logaddexp.reduce(x, axis=1)[:, None]
@@ -317,5 +366,5 @@ def describe(tier):
         'bounds': b, 'alphabets': {'styles': STYLES, 'classes': [2, 3, 4]},
         'assumptions': ['with exact ties the arg-max is the first maximal index (numpy / torch convention)', 'scores are integers 0..255 so that they can be painted into uint8 line images'],
         'min_nontrivial': 50,
-        'required_tags': ['output-layer-beyond-int16', 'more-than-255-frames-or-lines', 'huge-scores', 'repeat-merged', 'first-frame-non-blank', 'all-blank-line', 'batch-with-empty-and-non-empty-lines'],
+        'required_tags': ['non-nfc-character-table', 'process_lines-sparse-hand-over', 'output-layer-beyond-int16', 'more-than-255-frames-or-lines', 'huge-scores', 'repeat-merged', 'first-frame-non-blank', 'all-blank-line', 'batch-with-empty-and-non-empty-lines'],
     }
